@@ -138,7 +138,9 @@ class S3Compatible(Backend, short_name='S3C'):
         encoded_canonical_uri = quote(canonical_uri)
         url = self.url + encoded_canonical_uri
         if query:
-            query_string = urlencode(sorted(query.items()))
+            # SigV4 wants every character outside of the unreserved set percent-encoded
+            # in the canonical query string (a space is %20, never a plus sign)
+            query_string = urlencode(sorted(query.items()), safe='', quote_via=quote)
             url += f'?{query_string}'
         else:
             query_string = ''
